@@ -113,6 +113,83 @@ class NotComparisonOnly(AnalysisError):
     pass
 
 
+def eval_num(n, env, atom_name=None):
+    """Integer value of an arithmetic expression over atoms: constants, atoms (by atom_name / source text), + - * //,
+    unary minus, min / max / abs, conditional expressions."""
+    nm = atom_name or (lambda x: None)
+    c = _num_const(n)
+    if c is not None:
+        return c
+    k = nm(n) or src(n)
+    if k in env:
+        return env[k]
+    if isinstance(n, ast.BinOp) and isinstance(n.op, (ast.Add, ast.Sub, ast.Mult, ast.FloorDiv)):
+        l, r = eval_num(n.left, env, atom_name), eval_num(n.right, env, atom_name)
+        if isinstance(n.op, ast.Add):
+            return l + r
+        if isinstance(n.op, ast.Sub):
+            return l - r
+        if isinstance(n.op, ast.Mult):
+            return l * r
+        if r == 0:
+            raise NotComparisonOnly('division by zero in abstract case')
+        return l // r
+    if isinstance(n, ast.UnaryOp) and isinstance(n.op, ast.USub):
+        return -eval_num(n.operand, env, atom_name)
+    if isinstance(n, ast.Call) and dotted(n.func) in ('min', 'max', 'abs') and n.args and not n.keywords:
+        vals = [eval_num(a, env, atom_name) for a in n.args]
+        return {'min': min, 'max': max, 'abs': lambda *v: abs(v[0])}[dotted(n.func)](*vals)
+    if isinstance(n, ast.IfExp):
+        return eval_num(n.body, env, atom_name) if eval_pred(n.test, env, atom_name) else eval_num(n.orelse, env, atom_name)
+    raise NotComparisonOnly(f'no value for atom {k}')
+
+
+def num_atoms(n, atom_name=None, out=None):
+    """atoms (leaf operands) of an arithmetic expression as understood by eval_num"""
+    nm = atom_name or (lambda x: None)
+    out = out if out is not None else {}
+    if _num_const(n) is not None:
+        return out
+    k = nm(n)
+    if k:
+        out.setdefault(k, n)
+        return out
+    if isinstance(n, ast.BinOp) and isinstance(n.op, (ast.Add, ast.Sub, ast.Mult, ast.FloorDiv)):
+        num_atoms(n.left, atom_name, out); num_atoms(n.right, atom_name, out)
+    elif isinstance(n, ast.UnaryOp) and isinstance(n.op, ast.USub):
+        num_atoms(n.operand, atom_name, out)
+    elif isinstance(n, ast.Call) and dotted(n.func) in ('min', 'max', 'abs') and n.args and not n.keywords:
+        for a in n.args:
+            num_atoms(a, atom_name, out)
+    elif isinstance(n, ast.IfExp):
+        a, b = cmp_atoms(n.test, atom_name)
+        out.update(a)
+        num_atoms(n.body, atom_name, out); num_atoms(n.orelse, atom_name, out)
+    else:
+        out.setdefault(src(n), n)
+    return out
+
+
+def check_exprs(exprs, spec, symbols, constraint=None, atom_name=None, extra_consts=(), bools=()):
+    """Compare a tuple of arithmetic expressions with spec(env) -> tuple on every assignment of `symbols`."""
+    for e in exprs:
+        for a in num_atoms(e, atom_name):
+            if a not in symbols:
+                raise NotComparisonOnly(f'unexpected atom {a} in {src(e)}')
+    consts = set(extra_consts)
+    for e in exprs:
+        consts |= consts_in(e)
+    n = 0
+    bad = []
+    for env in assignments(symbols, consts, bools, constraint):
+        n += 1
+        got = tuple(eval_num(e, env, atom_name) for e in exprs)
+        want = tuple(spec(env))
+        if got != want and len(bad) < 5:
+            bad.append({'case': dict(env), 'code': got, 'spec': want})
+    return n, bad
+
+
 def cmp_atoms(e, atom_name=None):
     """Operands of all comparisons inside boolean expression e -> {name: node}. Boolean leaves that are not
     comparisons are returned in the second dict."""
@@ -120,10 +197,8 @@ def cmp_atoms(e, atom_name=None):
     nm = atom_name or (lambda n: None)
 
     def operand(n):
-        c = _num_const(n)
-        if c is not None:
-            return
-        nums.setdefault(nm(n) or src(n), n)
+        for k, v in num_atoms(n, atom_name).items():
+            nums.setdefault(k, v)
 
     def rec(n):
         if isinstance(n, ast.BoolOp):
@@ -159,13 +234,7 @@ def eval_pred(e, env, atom_name=None):
     nm = atom_name or (lambda n: None)
 
     def val(n):
-        c = _num_const(n)
-        if c is not None:
-            return c
-        k = nm(n) or src(n)
-        if k not in env:
-            raise NotComparisonOnly(f'no value for atom {k}')
-        return env[k]
+        return eval_num(n, env, atom_name)
 
     def rec(n):
         if isinstance(n, ast.BoolOp):
